@@ -90,9 +90,13 @@ impl<'a> TrafficGen<'a> {
                 }
                 let h = *rng.pick(&hs);
                 let args = self.sg.args_for(rng, &c.cid, h, 0);
-                let funds = match rng.below(6) {
+                let funds = match rng.below(9) {
                     0 => vec![Coin::new(rng.range(1, 40) as u128, "ucoin")],
                     1 => vec![Coin::new(rng.range(1, 9) as u128, "uatom"), Coin::new(3u128, "ucoin")],
+                    // in the sender's order, not the alphabet's; zero amounts; a denom twice
+                    2 => vec![Coin::new(3u128, "ucoin"), Coin::new(rng.range(1, 9) as u128, "uatom")],
+                    3 => vec![Coin::new(0u128, "ucoin"), Coin::new(rng.range(0, 2) as u128, "uatom")],
+                    4 => vec![Coin::new(1u128, "ucoin"), Coin::new(1u128, "uatom"), Coin::new(2u128, "ucoin")],
                     _ => vec![],
                 };
                 Some(Op::Exec {
